@@ -302,6 +302,7 @@ def run_greedy(job, ob):
             ob.prove(f"returned-values-are-evaluation[path{pi_},{i}]", o.pc, zx.eq(r["vals"][i], r["W"][i]))
             member, idx = kit.policy_row_index(list(r["pol"][i]), r["aspace"])
             ob.prove(f"returned-policy-greedy[path{pi_},{i}]", o.pc, zx.land(member, zx.eq(kit.lookup(Q[i], idx), B[i])),
+                     margin=(kit.lookup(Q[i], idx), B[i], list(np.asarray(L.R, dtype=object).flat) + list(r["W"]), list(np.asarray(L.P, dtype=object).flat) + [r["g"]]),
                      kind="returned policy is greedy with respect to the returned values",
                      cex=lambda m, i=i, r=r: dict(kind="greedy", state=i, cfg=cfg, T=kit.model_array(m, L.T), R=kit.model_array(m, L.R),
                                                   P=kit.model_array(m, L.P), W=kit.model_array(m, r["W"]), gamma=zx.model_value(m, r["g"])))
@@ -436,7 +437,8 @@ def replay(data):
         asp = np.asarray(pb.action_space)
         pol = np.asarray(st.policy)
         idx = [int(np.where((asp == pol[j]).all(1))[0][0]) for j in range(len(pol))]
-        bad = any(abs(Q[j, idx[j]] - Q[j].max()) > 1e-7 * max(1, abs(Q[j].max())) for j in range(len(idx)))
+        tol = 1e-7 * max(np.abs(R).max(), np.abs(W).max(), 1e-300)
+        bad = any(abs(Q[j, idx[j]] - Q[j].max()) > tol for j in range(len(idx)))
         return bool(bad), f"returned policy rows {idx}, Q {Q.tolist()}"
     if k == "initial":
         cfg = c["cfg"]
